@@ -9,7 +9,7 @@
    Dependencies() lists the inputs is an oracle; [sorted_oracle] is the repaired code (sort by name),
    [oracle_ok] only asks that each enumeration is a permutation of the inputs (a Go map iteration). *)
 From Coq Require Import String.
-From PF Require Import Base.Bytes Graph.Nodes Graph.NodesProofs Graph.NodesMore.
+From PF Require Import Base.Bytes Graph.Nodes Graph.NodesProofs Graph.NodesMore Graph.NodesLazy Graph.NodesLazyProofs.
 Local Open Scope nat_scope.
 
 (* Sentence 1: reading a node output returns the value that evaluating the current graph from scratch
@@ -361,3 +361,46 @@ Example c11_state_example :
     run sorted_oracle s1 [SetParam 0 3%Z] = Some s2 /\ state_of sorted_order (nodes s2) 2 = Some true /\
     read sorted_oracle s2 2 = Some (s3, 8%Z) /\ execs_of (nodes s3) 2 = 2 /\ state_of sorted_order (nodes s3) 2 = Some false.
 Proof. exact state_witness. Qed.
+
+(* ====================================================================================================== *)
+(* Processors that do NOT read every input (Graph/NodesLazy.v; /repo 6677351: Outdated() skips the dependencies
+   that were still Stale when the last run finished).  Every theorem above is about processors that read every
+   port; for those the repaired code behaves exactly as before (all flags false).
+
+   FULL statement wanted: [read_fresh] and [exec_only_if_cone_changed] for histories of [lrun] (processors with a
+   reading discipline [stops]).  PROVED (partial): its induction step, the soundness of skipping — for a node that
+   looks clean locally and whose record is what process() wrote (remembered versions sv / values sx, flags U,
+   every input the run consulted is flagged read), Outdated() = false implies that the cached value is what
+   Process() computes from the from-scratch values E of its inputs, WHATEVER value the unread inputs have now.
+   Not proved: that every history preserves that record (needs the analogue of Parts 2, 3, 5 of NodesProofs.v over
+   the read cone).  The harness judges such histories on the Go side (stream "lazy-processors"). *)
+Theorem unread_inputs_skipped_soundly_partial :
+  forall po (stops : id -> stopfn) f st ur n sn dv (sv : id -> nat) (sx E : id -> val) (U : id -> bool),
+  perm_ok po ->
+  nth_error st n = Some (Struct sn) -> sn_depvers sn = Some dv -> sn_dirty sn = false ->
+  dv = map sv (enum po n sn) -> flags_of ur n = map U (enum po n sn) ->
+  sn_cache sn = sn_proc sn (cut (stops n) (map (map sx) (ids_of sn))) ->
+  (forall d, In d (deps_ids sn) -> U d = false -> sv d = verT st d -> sx d = outT st d) ->
+  (forall j l d, j < length (cut (stops n) (map (map sx) (ids_of sn))) -> nth_error (ids_of sn) j = Some l -> In d l -> U d = false) ->
+  lstale po (S f) st ur n = Some false ->
+  (forall d, lstale po f st ur d = Some false -> E d = outT st d) ->
+  sn_cache sn = sn_proc sn (cut (stops n) (map (map E) (ids_of sn))).
+Proof. exact skip_unread_sound. Qed.
+Print Assumptions unread_inputs_skipped_soundly_partial.
+
+(* non-vacuity, and the defect itself: a gate-driven processor (node 3) that does not read its input A (node 2)
+   executes once; node 2 stays Stale; the repaired Outdated() ([lstale]) reports node 3 Processed, the unrepaired
+   comparison ([stale]) outdated; two idle reads and an update behind the unread input execute nothing, and the
+   cache is the from-scratch value *)
+Example c11_lazy_example :
+  exists s1 s2,
+    lrun sorted_order lazy_stops (linit lazy_decls) lazy_hist = Some s1 /\
+    execs_of (fst s1) 3 = 1 /\ execs_of (fst s1) 2 = 0 /\
+    flags_of (snd s1) 3 = [true; false] /\
+    lstale sorted_order 5 (fst s1) (snd s1) 2 = Some true /\
+    lstale sorted_order 5 (fst s1) (snd s1) 3 = Some false /\
+    stale sorted_order 5 (fst s1) 3 = Some true /\
+    lrun sorted_order lazy_stops s1 [Read 3; Read 3; SetParam 1 9%Z; Read 3] = Some s2 /\
+    execs_of (fst s2) 3 = 1 /\
+    eval_scratch 5 (graph_of (fst s2)) 3 = Some (outT (fst s2) 3).
+Proof. exact lazy_witness. Qed.
